@@ -491,6 +491,13 @@ def corpus():
                 "shared": None, "knobs": {"batching": False, "chunk": 16, "slab": None, "budget": 100000000, "ioc": 1}, "op": 1})
     out.append({"W": 1, "ranks": [[["a", ["tensor", "int16", "contig", 9]], ["b", ["tensor", "float16", "view", 5]], ["c", ["tensor", "int8", "contig", 16]]]],
                 "shared": None, "knobs": {"batching": True, "chunk": 32, "slab": 24, "budget": 40, "ioc": 1}, "op": 2})
+    # batching ON with tensors at / above the slab threshold: their write requests bypass the batcher (no slab copy),
+    # next to small ones that are copied into a slab
+    out.append({"W": 1, "ranks": [[["big", ["tensor", "float32", "contig", 16]], ["s", ["tensor", "int8", "contig", 3]], ["eq", ["tensor", "int64", "contig", 3]],
+                                   ["bigv", ["tensor", "float64", "view", 9]], ["s2", ["tensor", "uint8", "contig", 5]]]],
+                "shared": None, "knobs": {"batching": True, "chunk": None, "slab": 24, "budget": 100000000, "ioc": 1}, "op": 0})
+    out.append({"W": 1, "ranks": [[["a", ["tensor", "int32", "contig", 16]], ["b", ["tensor", "float32", "contig", 5]], ["c", ["tensor", "int16", "contig", 2]]]],
+                "shared": None, "knobs": {"batching": True, "chunk": 32, "slab": 8, "budget": 40, "ioc": 1}, "op": 3})
     return out
 
 
